@@ -1688,7 +1688,7 @@ impl ExternalSortExec {
                     (false, true) if nulls_first => Ordering::Greater,
                     (false, true) => Ordering::Less,
                     (false, false) => {
-                        let cmp = compare_array_values(&a, row_a, &b, row_b);
+                        let cmp = compare_array_values(&a, row_a, &b, row_b)?;
                         if sort_expr.direction == crate::planner::SortDirection::Desc {
                             cmp.reverse()
                         } else {
@@ -2050,7 +2050,7 @@ fn compare_array_values(
     row_a: usize,
     b: &ArrayRef,
     row_b: usize,
-) -> std::cmp::Ordering {
+) -> Result<std::cmp::Ordering> {
     use std::cmp::Ordering;
 
     // Handle nulls
@@ -2058,22 +2058,22 @@ fn compare_array_values(
     let b_null = b.is_null(row_b);
 
     match (a_null, b_null) {
-        (true, true) => return Ordering::Equal,
-        (true, false) => return Ordering::Greater, // nulls last
-        (false, true) => return Ordering::Less,
+        (true, true) => return Ok(Ordering::Equal),
+        (true, false) => return Ok(Ordering::Greater), // nulls last
+        (false, true) => return Ok(Ordering::Less),
         (false, false) => {}
     }
 
     // Compare based on type
     if let Some(arr_a) = a.as_any().downcast_ref::<Int64Array>() {
         if let Some(arr_b) = b.as_any().downcast_ref::<Int64Array>() {
-            return arr_a.value(row_a).cmp(&arr_b.value(row_b));
+            return Ok(arr_a.value(row_a).cmp(&arr_b.value(row_b)));
         }
     }
 
     if let Some(arr_a) = a.as_any().downcast_ref::<arrow::array::Int32Array>() {
         if let Some(arr_b) = b.as_any().downcast_ref::<arrow::array::Int32Array>() {
-            return arr_a.value(row_a).cmp(&arr_b.value(row_b));
+            return Ok(arr_a.value(row_a).cmp(&arr_b.value(row_b)));
         }
     }
 
@@ -2081,23 +2081,28 @@ fn compare_array_values(
         if let Some(arr_b) = b.as_any().downcast_ref::<Float64Array>() {
             let va = arr_a.value(row_a);
             let vb = arr_b.value(row_b);
-            return va.partial_cmp(&vb).unwrap_or(Ordering::Equal);
+            return Ok(va.partial_cmp(&vb).unwrap_or(Ordering::Equal));
         }
     }
 
     if let Some(arr_a) = a.as_any().downcast_ref::<StringArray>() {
         if let Some(arr_b) = b.as_any().downcast_ref::<StringArray>() {
-            return arr_a.value(row_a).cmp(arr_b.value(row_b));
+            return Ok(arr_a.value(row_a).cmp(arr_b.value(row_b)));
         }
     }
 
     if let Some(arr_a) = a.as_any().downcast_ref::<Date32Array>() {
         if let Some(arr_b) = b.as_any().downcast_ref::<Date32Array>() {
-            return arr_a.value(row_a).cmp(&arr_b.value(row_b));
+            return Ok(arr_a.value(row_a).cmp(&arr_b.value(row_b)));
         }
     }
 
-    Ordering::Equal
+    // Every other type (Timestamp, Decimal128, Float32, Int16, LargeUtf8, ...):
+    // Arrow's generic comparator is the ordering `sort_batch` (lexsort) gave
+    // each run. Answering `Equal` here made the merge interleave the runs
+    // arbitrarily, i.e. a silently unsorted ORDER BY.
+    let cmp = arrow::array::make_comparator(a.as_ref(), b.as_ref(), Default::default())?;
+    Ok(cmp(row_a, row_b))
 }
 
 /// Partition a batch by hash of key columns
